@@ -41,6 +41,9 @@ def handle (f : List String) : String :=
       -- with no metrics the closure never runs
       let bad := m.toNat! > 0 && anyBad prog l.toNat!
       s!"bad={b2i bad}"
+  | ["stall", _, _, _] =>
+    -- the push stalls iff a writing call on the connection has no deadline-setting call before it
+    s!"bad={b2i (!deadlineBeforeWrites false Generated.ExportLocks.pushConnCalls)}"
   | "one" :: _ => "-"
   | _ => "BAD-CASE"
 
